@@ -4,6 +4,16 @@ import "go/types"
 
 func registerMoreIntrinsics(e *Engine) {
 	in := e.intrinsics
+	nop := func(fr *frame, args []value) value { return nil }
+	// runtime debug settings: defaults
+	in["(*internal/godebug.Setting).Value"] = func(fr *frame, args []value) value { return "" }
+	in["(*internal/godebug.Setting).IncNonDefault"] = nop
+	in["(*internal/godebug.Setting).Undocumented"] = func(fr *frame, args []value) value { return false }
+	in["crypto/internal/fips140deps/godebug.Value"] = func(fr *frame, args []value) value { return "" }
+	in["crypto/internal/boring.Unreachable"] = nop
+	in["crypto/internal/boring/sig.StandardCrypto"] = nop
+	in["crypto/internal/boring/sig.BoringCrypto"] = nop
+	in["crypto/internal/boring/sig.FIPSOnly"] = nop
 	// context.WithValue without the reflectlite comparability check
 	in["context.WithValue"] = func(fr *frame, args []value) value {
 		r := fr.r
@@ -20,7 +30,6 @@ func registerMoreIntrinsics(e *Engine) {
 		*cell = structure{parent, key, args[2]}
 		return iface{t: types.NewPointer(t), v: cell}
 	}
-	nop := func(fr *frame, args []value) value { return nil }
 	for _, p := range []string{"github.com/gogo/protobuf/proto", "github.com/golang/protobuf/proto"} {
 		for _, f := range []string{"RegisterEnum", "RegisterType", "RegisterFile", "RegisterMapType", "RegisterExtension", "RegisterCustomType"} {
 			in[p+"."+f] = nop
